@@ -20,6 +20,7 @@ type sop struct {
 	X   uint32 `json:"x,omitempty"`
 	CC  bool   `json:"cc,omitempty"`
 	F   int    `json:"f,omitempty"`
+	P   int    `json:"p,omitempty"`
 	S   int    `json:"s,omitempty"`
 	N2  int    `json:"n2,omitempty"`
 }
@@ -45,6 +46,7 @@ func genSeq(r *core.Rng, engine int) *seqScript {
 			so.S, so.X, so.N2 = 1+r.Intn(nStart-1), uint32(r.Intn(3)), r.Intn(2)
 		} else if (so.K == kInst || so.K == kInstBin) && r.Chance(1, 3) {
 			so.F = 1 + r.Intn(2) // holds an open file; for half of them its Close fails
+			so.P = r.Intn(len(placeName))
 		}
 		if s.CD && !s.FS && so.K.onHandle() && r.Chance(1, 3) {
 			so.K = kCtxClose // a call cut by cancel (X even) or deadline (X odd)
@@ -110,12 +112,13 @@ func replaySeq(s *seqScript) *seqRun {
 	}
 	var st mstate
 	failing := map[int]bool{}
+	ctxClosed := map[int]bool{}
 	boom := map[int]bool{}
 	results := make([]api.Module, len(s.Ops))
 	ids := map[api.Module]int{}
 	var recs []rec
 	for i, o := range s.Ops {
-		sp := opSpec{K: o.K, N: o.N, X: o.X, CC: o.CC, F: o.F, S: o.S, N2: o.N2}
+		sp := opSpec{K: o.K, N: o.N, X: o.X, CC: o.CC, F: o.F, P: o.P, S: o.S, N2: o.N2}
 		var hs []api.Module
 		if o.K.onHandle() {
 			if o.Ref < 0 || o.Ref >= i || results[o.Ref] == nil {
@@ -145,7 +148,7 @@ func replaySeq(s *seqScript) *seqRun {
 		}
 		lo := lop{Client: 1, Kind: r.kind, Name: r.name, ID: id, Res: r.res, Call: r.call, Ret: r.ret, Err: r.err, X: o.X}
 		if r.cfs != nil {
-			lo.F = 1
+			lo.F, lo.P = 1, o.P
 			if r.cfs.fail {
 				lo.F = 2
 				failing[id] = true
@@ -203,6 +206,18 @@ func replaySeq(s *seqScript) *seqRun {
 		if r.kind.isInst() && got == rOK && id != 0 && st.open&bit(id) != 0 {
 			bad, wantText = true, "new-module"
 		}
+		if r.kind == kCtxClose && id != 0 {
+			ctxClosed[id] = true
+		}
+		if bad && r.name != anon && (r.kind.isInst() && r.res == rDup || r.kind == kLookup && r.res == rMod) {
+			// Is the name still held by a module that wazero's own context watcher goroutine has marked
+			// closed but not unregistered yet? That is the two-step Module.Close seen by one client.
+			if owner := h.rt.Module(modNames[r.name]); owner != nil && ctxClosed[ids[owner]] && safeIsClosed(owner) {
+				run.div = &divergence{At: i, Class: "atomicity:module-close-steps-visible",
+					Text: fmt.Sprintf("%s: the name is still registered for m%d, which the context-driven close has already marked closed (its call returned the exit error, IsClosed()==true): the closed flag is set before the name is released", lo.String(), ids[owner])}
+				return run
+			}
+		}
 		if bad {
 			gotText := resName[r.res]
 			if r.res == rMod {
@@ -237,8 +252,8 @@ func replaySeq(s *seqScript) *seqRun {
 		}
 	}
 	for _, f := range out.findings {
-		// requests after close and panics do not depend on the script: reported as they are
-		if strings.HasPrefix(f.Sig, "after-close:") || strings.HasPrefix(f.Sig, "panic:") {
+		// requests after close, panics and schedule-dependent observations do not depend on the script: reported as they are
+		if strings.HasPrefix(f.Sig, "after-close:") || strings.HasPrefix(f.Sig, "panic:") || strings.HasPrefix(f.Sig, "atomicity:") {
 			run.finds = append(run.finds, f)
 			continue
 		}
@@ -348,48 +363,71 @@ func shrink(s *seqScript, d *divergence) (*seqScript, *seqRun) {
 		}
 	}
 	ddmin()
-	simpler := map[opKind]opKind{kInstBin: kInst, kHostInst: kInst, kCloseX: kClose, kHostComp: kCompile, kCtxClose: kClose, kCall: kIsClosed}
-	for i := range cur.Ops {
-		if k, ok := simpler[cur.Ops[i].K]; ok {
-			c := &seqScript{Engine: cur.Engine, FS: cur.FS, CD: cur.CD, Ops: append([]sop(nil), cur.Ops...)}
-			c.Ops[i].K = k
-			if r := same(c); r != nil && r.div.At == best.div.At {
+	for pass := 0; pass < 2; pass++ {
+		// plain runtime and plain guest if the WASI guest / close-on-context-done do not matter
+		if cur.FS {
+			c := &seqScript{Engine: cur.Engine, FS: false, CD: cur.CD, Ops: cur.Ops}
+			if r := same(c); r != nil {
 				cur, best = c, r
 			}
 		}
-	}
-	// held files: none if it does not matter, else one that closes fine
-	for i := range cur.Ops {
-		for f := 0; f < cur.Ops[i].F; f++ {
-			c := &seqScript{Engine: cur.Engine, FS: cur.FS, CD: cur.CD, Ops: append([]sop(nil), cur.Ops...)}
-			c.Ops[i].F = f
-			if r := same(c); r != nil && r.div.At == best.div.At {
+		if cur.CD {
+			c := &seqScript{Engine: cur.Engine, FS: cur.FS, CD: false, Ops: cur.Ops}
+			if r := same(c); r != nil {
 				cur, best = c, r
-				break
 			}
 		}
-	}
-	// names: the anonymous name if it does not matter, else the first name
-	for i := range cur.Ops {
-		if !(cur.Ops[i].K.isInst() || cur.Ops[i].K == kLookup) {
-			continue
+		simpler := map[opKind]opKind{kInstBin: kInst, kHostInst: kInst, kCloseX: kClose, kHostComp: kCompile, kCtxClose: kClose, kCall: kIsClosed}
+		for i := range cur.Ops {
+			if k, ok := simpler[cur.Ops[i].K]; ok {
+				c := &seqScript{Engine: cur.Engine, FS: cur.FS, CD: cur.CD, Ops: append([]sop(nil), cur.Ops...)}
+				c.Ops[i].K = k
+				if r := same(c); r != nil && r.div.At == best.div.At {
+					cur, best = c, r
+				}
+			}
 		}
-		for _, n := range []int{anon, 0} {
-			if cur.Ops[i].N == n || (n == anon && cur.Ops[i].K == kHostInst) {
+		// held files: none if it does not matter, else one that closes fine
+		for i := range cur.Ops {
+			for f := 0; f < cur.Ops[i].F; f++ {
+				c := &seqScript{Engine: cur.Engine, FS: cur.FS, CD: cur.CD, Ops: append([]sop(nil), cur.Ops...)}
+				c.Ops[i].F = f
+				if r := same(c); r != nil && r.div.At == best.div.At {
+					cur, best = c, r
+					break
+				}
+			}
+		}
+		// placement of the held file: the plain one if it does not matter, a single slot instead of several
+		for i := range cur.Ops {
+			for _, p := range []int{0, 2} { // 2 = stdout's slot stands for any stdio slot and for "several"
+				if cur.Ops[i].F == 0 || cur.Ops[i].P == p || (p == 2 && cur.Ops[i].P > 4) {
+					continue
+				}
+				c := &seqScript{Engine: cur.Engine, FS: cur.FS, CD: cur.CD, Ops: append([]sop(nil), cur.Ops...)}
+				c.Ops[i].P = p
+				if r := same(c); r != nil && r.div.At == best.div.At {
+					cur, best = c, r
+					break
+				}
+			}
+		}
+		// names: the anonymous name if it does not matter, else the first name
+		for i := range cur.Ops {
+			if !(cur.Ops[i].K.isInst() || cur.Ops[i].K == kLookup) {
 				continue
 			}
-			c := &seqScript{Engine: cur.Engine, FS: cur.FS, CD: cur.CD, Ops: append([]sop(nil), cur.Ops...)}
-			c.Ops[i].N = n
-			if r := same(c); r != nil && r.div.At == best.div.At {
-				cur, best = c, r
-				break
+			for _, n := range []int{anon, 0} {
+				if cur.Ops[i].N == anon || cur.Ops[i].N == n || (n == anon && cur.Ops[i].K == kHostInst) { // anon: already the simplest
+					continue
+				}
+				c := &seqScript{Engine: cur.Engine, FS: cur.FS, CD: cur.CD, Ops: append([]sop(nil), cur.Ops...)}
+				c.Ops[i].N = n
+				if r := same(c); r != nil && r.div.At == best.div.At {
+					cur, best = c, r
+					break
+				}
 			}
-		}
-	}
-	if cur.FS {
-		c := &seqScript{Engine: cur.Engine, FS: false, CD: cur.CD, Ops: cur.Ops}
-		if r := same(c); r != nil {
-			cur, best = c, r
 		}
 	}
 	return cur, best
@@ -446,7 +484,7 @@ func seqOfHistory(engine int, cd bool, h []lop) *seqScript {
 	s := &seqScript{Engine: engine, CD: cd}
 	producer := map[int]int{}
 	for _, o := range h {
-		so := sop{K: o.Kind, N: o.Name, X: o.X, Ref: -1, F: o.F, S: o.S, N2: o.N2}
+		so := sop{K: o.Kind, N: o.Name, X: o.X, Ref: -1, F: o.F, P: o.P, S: o.S, N2: o.N2}
 		if o.Kind.onHandle() {
 			p, ok := producer[o.ID]
 			if !ok {
